@@ -146,6 +146,9 @@ impl LineParser {
                     line_index + 1
                 )
             }
+            // nothing to keep: an exit code without command must not be
+            // carried over into the next testcase
+            self.exit_code = None;
             return Ok(());
         }
         self.testcases.push(TestCase {
